@@ -9,6 +9,7 @@ import (
 	"strings"
 	"sync"
 	"sync/atomic"
+	"time"
 
 	"verif/harness/vk"
 	"verif/harness/vsrv"
@@ -122,6 +123,41 @@ func exclusion(a api, batch uint64, idx int) {
 	var stop atomic.Bool
 	start := make(chan struct{})
 	gpath, upath := apiRoot+g, apiRoot+g+"/.users/target"
+	// a version tag names ONE version: the same tag is never served with two different bodies
+	// (all versions of this scenario differ in size, so their tags must differ)
+	var tbMu sync.Mutex
+	tagBody := map[string]string{}
+	pairs := 0
+	seeTag := func(obj, tag string, body []byte) {
+		if tag == "" {
+			return
+		}
+		tbMu.Lock()
+		defer tbMu.Unlock()
+		pairs++
+		k := obj + " " + tag
+		if old, ok := tagBody[k]; ok && old != string(body) {
+			fail("tag-served-with-two-bodies", fmt.Sprintf("GET of the %s returned tag %s once with %s and once with %s", obj, tag, tail(old, 120), tail(string(body), 120)))
+			return
+		}
+		tagBody[k] = string(body)
+	}
+	for p := 0; p < 4; p++ {
+		rwg.Add(1)
+		go func(p int) {
+			defer rwg.Done()
+			<-start
+			for !stop.Load() {
+				obj, path := "group", gpath
+				if p%2 == 1 {
+					obj, path = "user", upath
+				}
+				if st, hd, body, err := a.do("GET", path, nil, nil); err == nil && st == 200 {
+					seeTag(obj, hd.Get("ETag"), body)
+				}
+			}
+		}(p)
+	}
 
 	writer := func(obj string, k int) {
 		defer wg.Done()
@@ -139,6 +175,7 @@ func exclusion(a api, batch uint64, idx int) {
 				fail("reader-saw-partial", fmt.Sprintf("the running server answered %d to a GET of the %s while it was being updated: %s", st, obj, strings.TrimSpace(string(body))))
 				continue
 			}
+			seeTag(obj, hd.Get("ETag"), body)
 			var cur map[string]any
 			if json.Unmarshal(body, &cur) != nil {
 				continue
@@ -299,6 +336,7 @@ func exclusion(a api, batch uint64, idx int) {
 	run.Eval(int64(len(recs)))
 	run.Count("acked_appends_verified", int64(acked))
 	run.Count("refused_updates_observed", int64(refused))
+	run.Count("tag_body_pairs_checked", int64(pairs))
 
 	// what the reader saw
 	rest := func(m map[string]any) map[string]any {
@@ -526,4 +564,132 @@ func staleDelete(a api, batch uint64, idx int) {
 		ps, _ := m["permissions"].([]any)
 		m["permissions"] = append(ps, "edited")
 	})
+}
+
+// ---- versions that differ in modification time only ------------------------------------------
+
+// flipHTTP: K writers GET the group (body + tag) and PUT it back If-Match with the comment
+// replaced by a unique value of the SAME width, so that all versions of the file have the
+// same size and differ in modification time only (within the property's scope: "versions
+// differing in size or modification time").  A version is only replaced when it is at
+// least 25 ms old and the file did not change around the GET (new inodes are stamped from
+// the kernel's coarse clock); a case in which a new version nevertheless shows the stamp
+// of its predecessor is discarded.  Oracle: the acknowledged updates form one chain from
+// the initial comment to the final one.
+func flipHTTP(a api, batch uint64, idx int) {
+	run := a.run
+	r := run.Rand(7, batch, uint64(idx))
+	g := fmt.Sprintf("f%d-%d", batch, idx)
+	K := 2 + r.IntN(5)
+	A := 8 + r.IntN(16)
+	replay := map[string]any{"phase": "e2e", "batch": batch, "scenario": idx, "part": "constant-size", "writers": K}
+	initial := "init-00000"
+	if err := a.srv.WriteGroup(g, map[string]any{"comment": initial, "users": map[string]any{"keeper": map[string]any{"password": "k", "permissions": "op"}}}); err != nil {
+		run.Inconclusive("cannot write the group: " + err.Error())
+		return
+	}
+	file := a.srv.GroupFile(g)
+	type stamp struct{ ns, size int64 }
+	stat := func() (stamp, bool) {
+		fi, err := os.Stat(file)
+		if err != nil {
+			return stamp{}, false
+		}
+		return stamp{fi.ModTime().UnixNano(), fi.Size()}, true
+	}
+	type rec struct {
+		read, wrote string
+		acked       bool
+	}
+	var mu sync.Mutex
+	var recs []rec
+	var tooCoarse atomic.Bool
+	var wg sync.WaitGroup
+	start := make(chan struct{})
+	path := apiRoot + g
+	for k := 0; k < K; k++ {
+		wg.Add(1)
+		go func(k int) {
+			defer wg.Done()
+			<-start
+			for n := 0; n < A; n++ {
+				s1, ok1 := stat()
+				st, hd, body, err := a.do("GET", path, nil, nil)
+				s2, ok2 := stat()
+				if err != nil || st != 200 || !ok1 || !ok2 || s1 != s2 {
+					continue
+				}
+				var cur map[string]any
+				if json.Unmarshal(body, &cur) != nil {
+					continue
+				}
+				read, _ := cur["comment"].(string)
+				id := fmt.Sprintf("w%02d-%05d", k, n)
+				cur["comment"] = id
+				nb, _ := json.Marshal(cur)
+				for time.Since(time.Unix(0, s2.ns)) < 25*time.Millisecond {
+					time.Sleep(time.Millisecond)
+				}
+				run.Note(fmt.Sprintf("%s: PUT comment %s If-Match %s (read %s)", g, id, hd.Get("ETag"), read))
+				st, _, _, err = a.do("PUT", path, map[string]string{"If-Match": hd.Get("ETag")}, nb)
+				if err != nil {
+					// outcome unknown: the chain cannot be judged
+					tooCoarse.Store(true)
+					continue
+				}
+				if s3, ok3 := stat(); ok2xx(st) && ok3 && s3 == s2 {
+					tooCoarse.Store(true)
+				}
+				mu.Lock()
+				recs = append(recs, rec{read, id, ok2xx(st)})
+				mu.Unlock()
+			}
+		}(k)
+	}
+	close(start)
+	wg.Wait()
+	run.Eval(int64(len(recs)))
+	if tooCoarse.Load() {
+		run.Count("constant_size_cases_discarded", 1)
+		return
+	}
+	fin, present, rerr := rawRead(file)
+	if rerr != nil || !present {
+		run.Violation("reader-saw-partial", fmt.Sprintf("the group file cannot be decoded at the end: %v", rerr), replay)
+		return
+	}
+	final, _ := fin["comment"].(string)
+	next := map[string]string{}
+	acked, refused := 0, 0
+	for _, rc := range recs {
+		if !rc.acked {
+			refused++
+			continue
+		}
+		acked++
+		if o, dup := next[rc.read]; dup {
+			run.Violation("two-writers-same-tag:constant-size", fmt.Sprintf("two PUT If-Match that had both read version %q were acknowledged (%s and %s); the versions of the file have the same size and differ in modification time only; the second silently overwrote the first", rc.read, o, rc.wrote), replay)
+			return
+		}
+		next[rc.read] = rc.wrote
+	}
+	cur, steps := initial, 0
+	for steps <= len(recs) {
+		n, ok := next[cur]
+		if !ok {
+			break
+		}
+		cur = n
+		steps++
+	}
+	if steps != acked || cur != final {
+		run.Violation("acknowledged-update-lost:constant-size", fmt.Sprintf("%d conditional PUTs were acknowledged, but the chain of versions from %q reaches %q after %d steps and the file finally holds %q", acked, initial, cur, steps, final), replay)
+		return
+	}
+	run.Count("constant_size_chains_verified", 1)
+	run.Count("constant_size_acked_updates", int64(acked))
+	run.Count("constant_size_refused_updates", int64(refused))
+	if acked > 1 && refused > 0 {
+		run.Distinct(fmt.Sprintf("constant-size K=%d", K))
+	}
 }
